@@ -155,6 +155,10 @@ def dequantizer(chk):
                 ok = b is not None and U(b["axis"]) == f"{t}.axis" and U(b["orig_shape"]) in (f"{t}.shape", f"{t}.size()")
                 core = b["grouped"] if b else e
             chk.require("C02.R3", site, ok, f"dequantize (per-axis): result restored with ungroup(., axis={t}.axis, orig_shape={t}.shape)", "QBitsDequantizer.forward", "ungroup on per-axis path", "grouped tensors dequantize to the grouped shape / wrong axis")
+        # a cast of the whole product to the dtype of the scale it already contains is the identity (float scale x integer codes)
+        if isinstance(core, ast.Call) and isinstance(core.func, ast.Attribute) and core.func.attr == "to" and [U(a) for a in core.args] == [f"{t}._scale.dtype"] and not core.keywords \
+                and isinstance(core.func.value, ast.BinOp) and isinstance(core.func.value.op, ast.Mult) and f"{t}._scale" in (U(core.func.value.left), U(core.func.value.right)):
+            core = core.func.value
         txt = U(core)
         fpath = facts.get(f"{t}.qtype.is_floating_point")
         diff = f"{t}._data.unpack().to(torch.int8) - {t}._zeropoint.to(torch.int8)"
